@@ -133,8 +133,12 @@ def run_entry(args):
         for i, ob in enumerate(ex.obligations):
             if ob.kind in ("panic",) and not (ob.cond is True or ob.guard is False):
                 groups.setdefault(ob.nassume, []).append(i)
+        # opts["fresh_solver"]: assert the assumption prefix inside each obligation's own scope instead of once at the outer
+        # level. z3's incremental core simplifies the formulas of one scope together; with a large path-condition-guarded
+        # prefix asserted in an outer scope some easy queries (C35) take minutes instead of a second.
+        fresh = bool(opts.get("fresh_solver"))
         for na, idxs in sorted(groups.items()):
-            if len(idxs) < 4:
+            if len(idxs) < 4 or fresh:
                 continue
             while nadded < na and nadded < len(ex.assumes):
                 s.add(ex.assumes[nadded])
@@ -151,8 +155,9 @@ def run_entry(args):
         # NB: the incremental solver only ever grows its assumption prefix; obligations are visited in creation order
         s2 = z3.Solver()
         nadded2 = 0
+        sinc, ninc = None, 0
         for i, ob in enumerate(ex.obligations):
-            while nadded2 < ob.nassume and nadded2 < len(ex.assumes):
+            while nadded2 < ob.nassume and nadded2 < len(ex.assumes) and not fresh:
                 s2.add(ex.assumes[nadded2])
                 nadded2 += 1
             rec = {"kind": ob.kind, "name": ob.name, "pos": ob.pos, "fn": ob.fn}
@@ -166,7 +171,32 @@ def run_entry(args):
                 rec["reachable"] = True
                 res["obligations"].append(rec)
                 continue
-            s2.push()
+            if fresh and ob.kind != "assert":
+                # panic/unwind sites are usually trivial: resource-limited attempt on an incremental solver first
+                if sinc is None:
+                    sinc = z3.Solver()
+                    sinc.set("rlimit", 3000000)
+                while ninc < ob.nassume and ninc < len(ex.assumes):
+                    sinc.add(ex.assumes[ninc])
+                    ninc += 1
+                sinc.push()
+                sinc.add(to_z3_bool(ob.guard))
+                sinc.add(to_z3_bool(b_not(ob.cond)))
+                tq = time.time()
+                rq = sinc.check()
+                sinc.pop()
+                nq += 1
+                if rq == z3.unsat:
+                    rec["result"] = "unsat"
+                    rec["reachable"] = True
+                    rec["solver_s"] = round(time.time() - tq, 4)
+                    res["obligations"].append(rec)
+                    continue
+            if fresh:
+                s2 = z3.Solver()  # never pushed: z3 runs its non-incremental (bit-blasting) pipeline, several times faster on wide arithmetic
+                for a in ex.assumes[:ob.nassume]:
+                    s2.add(a)
+            s2.push() if not fresh else None
             s2.add(to_z3_bool(ob.guard))
             s2.add(to_z3_bool(b_not(ob.cond)))
             tq = time.time()
@@ -177,8 +207,13 @@ def run_entry(args):
                 rec["result"] = "unsat"
                 if ob.kind == "assert":
                     # reachability of the assertion site (vacuity guard)
-                    s2.pop()
-                    s2.push()
+                    if fresh:
+                        s2 = z3.Solver()
+                        for a in ex.assumes[:ob.nassume]:
+                            s2.add(a)
+                    else:
+                        s2.pop()
+                        s2.push()
                     s2.add(to_z3_bool(ob.guard))
                     rr = s2.check()
                     nq += 1
@@ -203,14 +238,22 @@ def run_entry(args):
             else:
                 rec["result"] = "unknown"
                 res["undecided"].append(rec)
-            s2.pop()
+            s2.pop() if not fresh else None
             res["obligations"].append(rec)
         # covers (with all assumptions up to their point)
         sc = z3.Solver()
         for a in ex.assumes:
-            sc.add(a)
+            if not fresh:
+                sc.add(a)
         for name, g in ex.covers.items():
-            if g is True:
+            if fresh and g is not False:
+                sc = z3.Solver()
+                for a in ex.assumes:
+                    sc.add(a)
+                if g is not True:
+                    sc.add(g)
+                r = sc.check()
+            elif g is True:
                 # still need assumptions to be consistent
                 r = sc.check()
             elif g is False:
